@@ -285,7 +285,15 @@ func (e *Exec) rtPanic(msg string) {
 }
 
 func (e *Exec) unsupported(format string, a ...interface{}) {
-	panic(pathEnd{endUnsupported, fmt.Sprintf(format, a...)})
+	where := ""
+	n := 0
+	for f := e.top; f != nil && n < 4; f = f.caller {
+		if f.cur != nil {
+			where += " <- " + f.fn.String() + "@" + e.P.fset.Position(f.cur.Pos()).String()
+		}
+		n++
+	}
+	panic(pathEnd{endUnsupported, fmt.Sprintf(format, a...) + where})
 }
 
 // ---------- instruction interpretation ----------
@@ -792,19 +800,20 @@ func (e *Exec) checkIndex(idx Sc, t types.Type, n int, fork bool) int {
 		return int(v)
 	}
 	w := idx.T.W
-	inRange := e.ctx.Ult(idx.T, e.ctx.BV(uint64(n), w))
-	if n == 0 {
-		inRange = e.ctx.False
-	}
-	if !e.branch(Sc{T: inRange}) {
+	inRange := e.ultConst(idx.T, uint64(n))
+	if !e.branch(e.boolSc(inRange)) {
 		e.rtPanic(fmt.Sprintf("index out of range [symbolic] with length %d", n))
 	}
-	for k := 0; k < n-1; k++ {
+	top := n
+	if w < 31 && top > 1<<w {
+		top = 1 << w
+	}
+	for k := 0; k < top-1; k++ {
 		if e.branch(Sc{T: e.ctx.Eq(idx.T, e.ctx.BV(uint64(k), w))}) {
 			return k
 		}
 	}
-	return n - 1
+	return top - 1
 }
 
 func (e *Exec) indexOp(fr *frame, instr *ssa.Index) Value {
@@ -842,8 +851,8 @@ func (e *Exec) symSelect(idx Sc, n int, elemT types.Type, at func(int) Value) (V
 		return nil, false
 	}
 	iw := idx.T.W
-	inRange := e.ctx.Ult(idx.T, e.ctx.BV(uint64(n), iw))
-	if !e.branch(Sc{T: inRange}) {
+	inRange := e.ultConst(idx.T, uint64(n))
+	if !e.branch(e.boolSc(inRange)) {
 		e.rtPanic(fmt.Sprintf("index out of range [symbolic] with length %d", n))
 	}
 	toT := func(s Sc) *Term {
@@ -855,8 +864,32 @@ func (e *Exec) symSelect(idx Sc, n int, elemT types.Type, at func(int) Value) (V
 		}
 		return e.ctx.BV(s.C, ki.w)
 	}
-	res := toT(at(n - 1).(Sc))
-	for i := n - 2; i >= 0; i-- {
+	top := n
+	if iw < 31 && top > 1<<iw {
+		top = 1 << iw
+	}
+	allConc := true
+	for i := 0; i < top; i++ {
+		if at(i).(Sc).T != nil {
+			allConc = false
+			break
+		}
+	}
+	if allConc {
+		// constant table: run-length encode into a chain of unsigned range tests
+		res := toT(at(top - 1).(Sc))
+		cur := at(top - 1).(Sc).C
+		for i := top - 2; i >= 0; i-- {
+			v := at(i).(Sc).C
+			if v != cur {
+				res = e.ctx.Ite(e.ctx.Ule(idx.T, e.ctx.BV(uint64(i), iw)), toT(at(i).(Sc)), res)
+				cur = v
+			}
+		}
+		return e.fromTermT(res, ki), true
+	}
+	res := toT(at(top - 1).(Sc))
+	for i := top - 2; i >= 0; i-- {
 		res = e.ctx.Ite(e.ctx.Eq(idx.T, e.ctx.BV(uint64(i), iw)), toT(at(i).(Sc)), res)
 	}
 	return e.fromTermT(res, ki), true
@@ -894,6 +927,17 @@ func (e *Exec) fromTermT(t *Term, ki kindInfo) Sc {
 		return Sc{C: canon(t.K, ki)}
 	}
 	return Sc{T: t}
+}
+
+// ultConst builds t <u k where k may exceed the range of t's width.
+func (e *Exec) ultConst(t *Term, k uint64) *Term {
+	if t.W < 64 && k > mask(t.W) {
+		return e.ctx.True
+	}
+	if k == 0 {
+		return e.ctx.False
+	}
+	return e.ctx.Ult(t, e.ctx.BV(k, t.W))
 }
 
 func (e *Exec) fromTerm(t *Term) Sc {
@@ -972,7 +1016,7 @@ func (e *Exec) symSliceBounds(fr *frame, instr *ssa.Slice, ln, cp int) (int, int
 			return int(int64(s.C))
 		}
 		w := s.T.W
-		if !e.branch(Sc{T: e.ctx.Ule(s.T, e.ctx.BV(uint64(cp), w))}) {
+		if !e.branch(e.boolSc(e.ultConst(s.T, uint64(cp)+1))) {
 			e.rtPanic(fmt.Sprintf("slice bounds out of range [symbolic] with capacity %d", cp))
 		}
 		for k := 0; k < cp; k++ {
